@@ -47,6 +47,13 @@ class Effect(Transformation[A, None], Validatable, Explainable, ABC):
         """
         raise NotImplementedError  # pragma: nocover
 
+    def keys(self, options: Options) -> Set[str]:
+        """Return the option keys that are present and that the effect depends on.
+
+        Effects that take no options need not override this.
+        """
+        return set()
+
 
 class ChainedEffect(Effect[A]):
     """An effect that chains multiple effects together.
@@ -73,6 +80,10 @@ class ChainedEffect(Effect[A]):
         """Validate each effect."""
         for effect in self.effects:
             effect.validate(options)
+
+    def keys(self, options: Options) -> Set[str]:
+        """Return the option keys each effect depends on."""
+        return set().union(*(effect.keys(options) for effect in self.effects))
 
     def explain(self, options: Optional[Options] = None) -> Set[str]:
         """Return the option keys required to perform each effect."""
@@ -109,6 +120,10 @@ class CallbackEffect(Effect[A]):
     def validate(self, options: Options) -> None:
         """Validate the callback."""
         self.callback.validate(options)
+
+    def keys(self, options: Options) -> Set[str]:
+        """Return the option keys the callback depends on."""
+        return self.callback.keys(options)
 
     def explain(self, options: Optional[Options] = None) -> Set[str]:
         """Return the option keys required to perform the callback."""
@@ -163,8 +178,12 @@ class Computation(Evaluatable[A]):
             self.effect.validate(options)
 
     def keys(self, options: Options) -> Set[str]:
-        """Return the option keys required to evaluate the Evaluatable."""
-        return self.evaluatable.keys(options)
+        """Return the option keys required to evaluate the Evaluatable and apply the Effect."""
+        return (
+            self.evaluatable.keys(options)
+            if _EFFECTS_DISABLED(options)
+            else self.evaluatable.keys(options) | self.effect.keys(options)
+        )
 
     def explain(self, options: Optional[Options] = None) -> Set[str]:
         """Return the option keys required to evaluate the Evaluatable and apply the Effect."""
